@@ -3303,7 +3303,10 @@ impl Value {
                 binding_map_keys,
             } = ret
             {
-                let need_convert = if let Expression::Plus { right, .. } = &*expression {
+                // only a concatenation built here (not a `+` written by the user) can take more text
+                let need_convert = if !has_wrap_to_string {
+                    true
+                } else if let Expression::Plus { right, .. } = &*expression {
                     if let Expression::LitStr { .. } = &**right {
                         false
                     } else {
